@@ -438,6 +438,11 @@ def run_bandit(case, driver):
     if case.get("shared_list"):
         tags.append("actions:same-list-object-refilled")
     since_learn = 0
+    eqm = bool(case.get("eqm"))      # phase 5: offered lists with EQUAL members are inside the (B) family for eps / ucb / random (positional reading)
+    if eqm:
+        tags.append("family:equal-members")
+    observed = set()      # classes the learner has been taught successfully
+    safe_state_seen = False
     taught = []           # the rewards the wrapped learner was taught (after the Misguided wrappers)
     mirror = UcbMirror() if lt == "ucb" else None
     mhist = []            # the history as the model sees it
@@ -492,6 +497,14 @@ def run_bandit(case, driver):
                     tags.append("rows:" + d_[1])
             if len(set(ids)) != len(ids):
                 tags.append("dup-actions")
+                if eqm:
+                    tags.append("eqm:equal-members-offered")
+                    if any(r1[0] == r2[0] and r1[1] != r2[1] for i1, r1 in enumerate(refs) for r2 in refs[i1 + 1:]):
+                        tags.append("eqm:equal-members-in-different-spellings")
+                    if hash_colliding([actions[ids.index(i_)] for i_ in sorted(set(ids))]):
+                        tags.append("eqm:hash-colliding-members")
+                    if lt == "ucb":
+                        tags.append("eqm:ucb-all-offered-observed" if all(i_ in observed for i_ in ids) else "eqm:ucb-some-offered-unobserved")
         if name == "predict":
             n_pred += 1
             try:
@@ -556,6 +569,14 @@ def run_bandit(case, driver):
                           "position probability %r (call #%d): the policy confuses or loses actions" % (ctx, list(actions), a, p, learner_src(spec), ref_q, k),
                           "predict-prob-differs-from-renamed-policy")
             last = ids[idx]
+            if case.get("safe") and not safe_state_seen and not malformed:
+                # theorem safe_state_after (stAfter of safe_wrapper_identity): _pred_batch 'not', _pred_kwargs False, _pred_format 'AP'
+                safe_state_seen = True
+                memo = (getattr(L, "_pred_batch", None), bool(getattr(L, "_pred_kwargs", None)), getattr(L, "_pred_format", None))
+                tags.append("A:safe-memo-state")
+                if memo != ("not", False, "AP"):
+                    fails.append(F("A", "SafeLearner(%s) after its first predict(%r, %r) memoised (_pred_batch, _pred_kwargs, _pred_format) = %r, the model's stAfter is "
+                                   "('not', False, 'AP')" % (learner_src(spec), ctx, list(actions), memo), "A:safe-memo-state"))
             mhist.append({"op": "predict", "actions": ids, "vals": vals_for(ids)})
             cmp.append((len(mhist) - 1, "pred", (idx, p, ids), "predict #%d" % k))
             fidx[len(mhist) - 1] = (idx, p)
@@ -605,8 +626,24 @@ def run_bandit(case, driver):
                 tags.append("pmf:tie")
             if any(v == 0 for v in vec):
                 tags.append("pmf:zero-entry")
-            if abs(sum(vec) - 1) > 1e-9:
+            if eqm and lt == "ucb" and len(set(ids)) != len(ids):
+                # BanditUCB over a list with equal members (theorem ucb_pmf_equal_members_partial): one entry per position, each in [0,1], total >= 1 (so a
+                # position can always be drawn with a positive reported weight), and exactly a distribution once every offered action has been observed
+                unobs = [i_ for i_ in ids if i_ not in observed]
+                if any(v > 1 + 1e-9 for v in vec):
+                    B("score(%r, %r, .) = %r has an entry above 1 (call #%d)" % (ctx, actions, vec, k), "eqm-score-above-one")
+                elif sum(vec) < 1 - 1e-9:
+                    B("score(%r, %r, .) = %r sums to %r < 1 over a list with equal members (call #%d)" % (ctx, actions, vec, sum(vec), k), "eqm-score-sum-below-one")
+                elif not unobs and abs(sum(vec) - 1) > 1e-9:
+                    B("score(%r, %r, .) = %r sums to %r, not 1, although every offered action has been observed (call #%d)" % (ctx, actions, vec, sum(vec), k),
+                      "eqm-score-sum-not-one-all-observed")
+                elif any(vec[i1] != vec[i2] for i1 in range(len(ids)) for i2 in range(i1 + 1, len(ids)) if ids[i1] == ids[i2]):
+                    B("score(%r, %r, .) = %r gives equal members different probabilities (call #%d)" % (ctx, actions, vec, k), "eqm-equal-members-differ")
+                tags.append("eqm:ucb-score-sum>1" if sum(vec) > 1 + 1e-9 else "eqm:ucb-score-sum=1")
+            elif abs(sum(vec) - 1) > 1e-9:
                 B("score(%r, %r, .) = %r sums to %r, not 1 (call #%d)" % (ctx, actions, vec, sum(vec), k), "score-sum-not-one")
+            elif eqm and len(set(ids)) != len(ids) and any(vec[i1] != vec[i2] for i1 in range(len(ids)) for i2 in range(i1 + 1, len(ids)) if ids[i1] == ids[i2]):
+                B("score(%r, %r, .) = %r gives equal members different probabilities (call #%d)" % (ctx, actions, vec, k), "eqm-equal-members-differ")
             v = vals_for(ids)
             for j_, (i, sv) in enumerate(zip(ids, vec)):
                 mhist.append({"op": "score", "actions": ids, "a": i, "vals": v})
@@ -664,6 +701,7 @@ def run_bandit(case, driver):
                 stop = True
             if kind == "learned":
                 taught.append(misguide_float(mis, r))
+                observed.add(aid)
             if mirror is not None and kind == "learned":
                 mirror.learn(aid, misguide_float(mis, r))
             mhist.append({"op": "learn", "a": aid, "r": q(r)})
@@ -681,13 +719,17 @@ def run_bandit(case, driver):
                         learner_src(spec), pos, j_, got, float(unq(pf[pos][j_]))), "A:%s-float-pmf" % lt))
                     break
         if not malformed:      # (C) run-time guard of the theorems: the model's own answers are what the spec demands
-            for mo in model:
+            for pos_, mo in enumerate(model):
                 if "err" in mo:
                     fails.append(F("C", "model raises %s inside the quantifier" % mo["err"], "C:%s-err" % lt))
                 elif "pred" in mo:
                     pm = [unq(x) for x in mo["pmf"]]
                     i_, p_ = mo["pred"][0], unq(mo["pred"][1])
-                    if sum(pm) != 1 or min(pm) < 0 or not (i_ < len(pm) and pm[i_] == p_ and p_ > 0):
+                    ma_ = mhist[pos_]["actions"]
+                    if eqm and lt == "ucb" and len(set(ma_)) != len(ma_):      # ucb_pmf_equal_members_partial: `Drawable`, not `Valid`
+                        if sum(pm) < 1 or min(pm) < 0 or max(pm) > 1 or not (i_ < len(pm) and pm[i_] == p_ and p_ > 0):
+                            fails.append(F("C", "model predict %s over a list with equal members is not drawable" % json.dumps(mo), "C:ucb-eqm-pred"))
+                    elif sum(pm) != 1 or min(pm) < 0 or not (i_ < len(pm) and pm[i_] == p_ and p_ > 0):
                         fails.append(F("C", "model predict %s is not (index, pmf[index] > 0) of a distribution" % json.dumps(mo), "C:%s-pred" % lt))
                 elif "score" in mo and unq(mo["score"]) < 0:
                     fails.append(F("C", "model score negative", "C:%s-score" % lt))
@@ -957,6 +999,53 @@ def weights_ok(c):
     return bad
 
 
+FLOAT_RUN_MAX = 30          # (cost) learn calls per history led through the float-faithful model
+
+
+def float_run_check(driver, st0, fl_ops, fl_states, fails, tags):
+    """(A) phase 5: ONE run of `runCF flDouble` (Corral.learnF: instant losses, float root search, normalisation, p-bar smoothing, eta/rho schedule, every
+    operation rounded to binary64) from the initial state against the implementation's _ps / _p_bars / _etas / _rhos after every learn of the history.
+    Expected bit for bit; a difference below 1e-12 (relative) ends the comparison (later rounds start from different doubles), a larger one is reported."""
+    ans = driver.ask({"kind": "corral_runF", "state": st0, "ops": fl_ops})
+    outs = ans["outs"]
+    tags.append("A:corral-float-whole-history")
+    tags.append("float-run:rounds>=10" if len(fl_ops) >= 10 else "float-run:rounds<10")
+    exact = True
+    for k, (mo, got) in enumerate(zip(outs, fl_states)):
+        if "err" in mo:
+            fails.append(F("A", "learn #%d: the float-faithful model of CorralLearner.learn raises %s, the implementation did not" % (k, mo["err"]), "A:corral-float-learn-err"))
+            return
+        if not mo["halted"]:
+            fails.append(F("C", "model: the float root search did not leave by its own exits (learn #%d)" % k, "C:corral-search-fuel"))
+        for key, nm in (("ps", "_ps"), ("pbars", "_p_bars"), ("etas", "_etas"), ("rhos", "_rhos")):
+            exp = [unq(v) for v in mo[key]]
+            if exp == got[key]:
+                continue
+            exact = False
+            if len(exp) != len(got[key]) or any(not close(float(g), float(e), 1e-12, 0) for g, e in zip(got[key], exp)):
+                fails.append(F("A", "learn #%d (base choices %s, action %s, reward %r, probability %r): %s implementation %s, float-faithful model %s" % (
+                    k, fl_ops[k]["bacts"], fl_ops[k]["a"], fnum(fl_ops[k]["r"]), fnum(fl_ops[k]["p"]), nm, [float(g) for g in got[key]], [float(e) for e in exp]),
+                    "A:corral-float-" + key))
+                return
+        if k > 0 and got["etas"] != fl_states[k - 1]["etas"]:
+            tags.append("float-run:eta-rho-updated")
+        if min(got["pbars"]) < Fraction(1, 1000):
+            tags.append("float-run:pbar<1e-3")
+        if not exact:
+            tags.append("float-run:ulp-difference(comparison-ended)")
+            return
+    if len(outs) != len(fl_states):
+        fails.append(F("A", "the float-faithful model stopped after %d of %d learn calls" % (len(outs), len(fl_states)), "A:corral-float-learn-err"))
+        return
+    tags.append("float-run:bit-exact")
+    # (C) the theorem's conclusion on the model's own float states: strictly positive, sums within 1e-4
+    for k, mo in enumerate(outs):
+        ps_, pb_, et_ = [unq(v) for v in mo["ps"]], [unq(v) for v in mo["pbars"]], [unq(v) for v in mo["etas"]]
+        if min(ps_) <= 0 or min(pb_) <= 0 or min(et_) <= 0 or abs(sum(ps_) - 1) > Fraction(1, 10000) or abs(sum(pb_) - 1) > Fraction(1, 10000):
+            fails.append(F("C", "model: float Corral state after learn #%d is not in the float simplex" % k, "C:corral-float-simplex"))
+            return
+
+
 def run_corral(case, driver):
     fails, tags, impl = [], ["kind:corral", "mode:" + case["mode"], "T:" + str(case["T"] if case["T"] == "inf" else num(case["T"])),
                              "M:%d" % len(case["bases"])], []
@@ -1014,6 +1103,7 @@ def run_corral(case, driver):
 
     rounds = 0
     actions = None
+    fl_ops, fl_states = [], []      # phase 5: every learn call / the implementation's (_ps, _p_bars, _etas, _rhos) after it, as exact rationals
     played = []           # (index of the learnt action, probability, reward) of every completed round, for the whole-history tower run
     a_on = driver is not None
     for k, op in enumerate(case["hist"]):
@@ -1083,6 +1173,15 @@ def run_corral(case, driver):
         if any(i is None for i in bidx):
             B("a base learner of Corral chose %r, not among the offered %r (round %d)" % (bacts_v, actions, k), "base-not-in-actions")
             break
+        if k == 0 and a_on:
+            # theorem safe_state_after: what the SafeLearner around every base learner has memoised after its first predict (kwargs exactly for a nested Corral's info)
+            tags.append("A:safe-memo-state")
+            for j, sl in enumerate(getattr(c, "_base_lrns", [])):
+                memo = (getattr(sl, "_pred_batch", None), bool(getattr(sl, "_pred_kwargs", None)), getattr(sl, "_pred_format", None))
+                if memo != ("not", case["bases"][j]["type"] == "corral", "AP"):
+                    A("the SafeLearner around base learner %d (%s) memoised (_pred_batch, _pred_kwargs, _pred_format) = %r after its first predict, the model's stAfter is %r" % (
+                        j, learner_src(case["bases"][j]), memo, ("not", case["bases"][j]["type"] == "corral", "AP")), "safe-memo-state")
+                    break
         pmf = [sum([pb * int(bi == i) for pb, bi in zip(pbars, bidx)]) for i in range(len(actions))]      # the source's own expression
         if not is_real(p) or p <= 0:
             B("predict(%r, %r) reported probability %r for %r (round %d)" % (ctx, actions, p, a, k), "predict-prob-not-positive")
@@ -1142,9 +1241,6 @@ def run_corral(case, driver):
                 rj = misguide_float(b.get("mis", []), rj)
                 if not (0 <= rj <= 1):
                     outside = True
-        if outside:
-            tags.append("nested:inner-corral-reward-outside-unit-interval")
-            break
         before = full_state() if a_on else None
         nested_before = None
         if a_on and inner:
@@ -1167,6 +1263,35 @@ def run_corral(case, driver):
                                     "lastProbs": [q(float(v)) for v in iinfo[1]]}
         bprobs = list(info["info"][1])
         binfos = list(info["info"][2])
+        if a_on and nested_before is not None:
+            # phase 5: the decidable recursive predicate `acceptsB` (= the forced hypothesis `accepts` of corral_nested_valid, theorem accepts_iff_acceptsB)
+            # against the harness's own reading of "every nested Corral is handed a reward in [0,1]" and, below, against the real learn
+            acc = driver.ask({"kind": "accepts", "a": ids[la], "r": q(r), "p": q(lp),
+                              "node": {"mis": mis, "state": before, "lastActs": [ids[i] for i in bidx],
+                                       "lastProbs": [q(float(x)) for x in bprobs], "bases": nested_before}})
+            tags.append("A:accepts-predicate:%s:%s" % (case["mode"], "accepted" if acc["accepts"] else "rejected"))
+            if acc["accepts"] == outside:
+                A("round %d: model acceptsB = %r for learn(action %d, r=%r, p=%r) but the rewards handed to the nested Corrals are %s [0,1]" % (
+                    k, acc["accepts"], la, r, lp, "outside" if outside else "inside"), "accepts")
+            if acc["accepts"] and acc["learn_err"] is not None:
+                fails.append(F("C", "model: the tower accepts the feedback but its learn raises %s" % acc["learn_err"], "C:corral-accepts"))
+            if outside and not acc["accepts"]:
+                # outside the property's quantifier (not judged by (B)); the model says the composition REJECTS this feedback: the real learn must raise
+                # the inner Corral's AssertionError
+                raised = None
+                try:
+                    with step_limit(case.get("step_timeout", 5)):
+                        top.learn(ctx, actions[la], r, lp, **info)
+                except AssertionError:
+                    raised = "AssertionError"
+                except BaseException as e:
+                    raised = type(e).__name__
+                if raised != "AssertionError" and acc["learn_err"] == "AssertionError":
+                    A("round %d: the model rejects learn(action %d, r=%r, p=%r) (an inner Corral is handed a reward outside [0,1]: AssertionError) but the "
+                      "implementation %s" % (k, la, r, lp, "returned" if raised is None else "raised " + raised), "accepts-impl")
+        if outside:
+            tags.append("nested:inner-corral-reward-outside-unit-interval")
+            break
         try:
             with step_limit(case.get("step_timeout", 5)):
                 top.learn(ctx, actions[la], r, lp, **info)
@@ -1187,6 +1312,11 @@ def run_corral(case, driver):
         rounds += 1
         played.append((la, lp, r))
         impl.append({"op": "learn", "ps": [float(x) if is_real(x) else repr(x) for x in c._ps]})
+        if len(fl_ops) < FLOAT_RUN_MAX and all(is_real(x) for w_ in (c._ps, c._p_bars, c._etas, c._rhos) for x in w_):
+            # phase 5: the whole history of learn calls for the float-faithful model `runCF flDouble` (compared after the loop)
+            fl_ops.append({"bacts": [ids[i] for i in bidx], "a": ids[la], "r": q(r_in), "p": q(lp)})
+            fl_states.append({"ps": [Fraction(x) for x in c._ps], "pbars": [Fraction(x) for x in c._p_bars], "etas": [Fraction(x) for x in c._etas],
+                              "rhos": [Fraction(x) for x in c._rhos]})
         bad = weights_ok(c)
         for j, x in inner:
             if not bad:
@@ -1306,6 +1436,8 @@ def run_corral(case, driver):
         tags.append("regime:extreme")
     else:
         tags.append("regime:benign")
+    if a_on and st0 is not None and fl_ops and not any(f["kind"] == "A" for f in fails):
+        float_run_check(driver, st0, fl_ops, fl_states, fails, tags)
     if (a_on and not fails and played and all(op.get("score") is None for op in case["hist"][:min(len(played), 4)])
             and all(b["type"] != "corral" or all(x["type"] != "corral" for x in b["bases"]) for b in case["bases"])):
         run_tower_check(case, driver, played[:4], fails, tags)     # (cost) exact rationals grow exponentially with the rounds
@@ -1763,6 +1895,82 @@ def gen_corral(rng, tier, search=False):
 
 
 # ---------------------------------------------------------------- reproduction snippets (plain Python, no harness)
+def gen_eqm(rng, tier, collide=None):
+    """phase 5: BanditUCB / BanditEpsilon / Random over offered lists with EQUAL members (the same action twice, preferably in two spellings), optionally with
+    two hash-colliding different actions side by side; the history teaches some of the actions so that UCB is met with and without unobserved equal members"""
+    if collide is None:
+        collide = rng.chance(0.5)
+    others = [c_ for c_ in range(len(CATALOG))]
+    if collide:
+        grp = list(rng.choice(COLLIDE))
+        cls = grp + rng.sample([c_ for c_ in others if c_ not in grp], rng.randint(0, 2))
+    else:
+        cls = rng.sample(others, rng.randint(1, 4))
+    pool = [list(CATALOG[i]) for i in cls]
+    npool = len(pool)
+    r = rng.below(100)
+    seed = rng.choice([1, 2, 3, rng.randint(0, 10 ** 6), seed_for(rng.randint(1, 3), rng.choice([0, M_ - 1, M_ // 2]))])
+    if r < 40:
+        spec = {"type": "ucb", "seed": seed}
+    elif r < 85:
+        spec = {"type": "eps", "eps": rng.choice([[0, 1], [1, 1], q(0.05), q(0.1), q(0.5), q(1e-9)]), "seed": seed}
+    else:
+        spec = {"type": "random", "seed": seed}
+    if rng.chance(0.15):
+        spec["mis"] = [[q(rng.choice([0.5, -1, 0.25])), q(rng.choice([-1, 0.5, 2]))]]
+
+    def action_list():
+        cs = list(range(npool)) if rng.chance(0.6) else rng.sample(list(range(npool)), rng.randint(1, npool))
+        if collide and rng.chance(0.8):
+            cs = [0, 1] + [c_ for c_ in cs if c_ > 1]
+        refs = [[c_, 0] for c_ in cs]
+        for _ in range(rng.choice([1, 1, 2])):           # the equal members: another spelling of the class where it has one
+            c_ = rng.choice(cs)
+            free = [j for j in range(len(pool[c_])) if [c_, j] not in refs]
+            refs.insert(rng.below(len(refs) + 1), [c_, rng.choice(free) if free and rng.chance(0.8) else 0])
+        return refs
+    hist = []
+    nops = rng.choice([3, 5, 8, 12, 20])
+    while len(hist) < nops:
+        r = rng.below(100)
+        if r < 40:
+            hist.append({"op": "predict", "actions": action_list()})
+            if rng.chance(0.7):
+                hist.append({"op": "learn", "a": "last", "alias": rng.below(3), "r": gen_reward(rng, False), "p": [1, 2]})
+        elif r < 75:
+            hist.append({"op": "scores", "actions": action_list()})
+        else:
+            hist.append({"op": "learn", "a": ref(rng, pool, rng.below(npool)), "r": gen_reward(rng, False), "p": [1, 2]})
+    case = {"t": "bandit", "eqm": True, "learner": spec, "pool": pool, "hist": hist, "twin": False}
+    if rng.chance(0.25):
+        case["safe"] = True
+    elif rng.chance(0.3):
+        case["shared_list"] = True
+    return case
+
+
+def eqm_corpus():
+    """deterministic members of the equal-members family: every learner kind x (a plain pool, each hash-colliding pair) with one fixed history"""
+    cs = []
+    pools = [[11, 7, 1]] + [g_ + [7] for g_ in COLLIDE]
+    for cls in pools:
+        pool = [list(CATALOG[i]) for i in cls]
+        alt = [min(1, len(c_) - 1) for c_ in pool]
+        A1 = [[0, 0], [1, 0], [0, alt[0]]]
+        A2 = [[1, 0], [0, 0], [2, 0], [1, alt[1]]]
+        A3 = [[2, 0], [2, alt[2]], [0, 0], [1, 0]]
+        hist = [{"op": "scores", "actions": A1}, {"op": "predict", "actions": A1}, {"op": "learn", "a": "last", "r": [1, 2], "p": [1, 2]},
+                {"op": "scores", "actions": A2}, {"op": "predict", "actions": A2}, {"op": "learn", "a": "last", "r": [1, 4], "p": [1, 2]},
+                {"op": "learn", "a": [0, 0], "r": [3, 4], "p": [1, 2]}, {"op": "learn", "a": [1, 0], "r": [1, 1], "p": [1, 2]}, {"op": "scores", "actions": A1},
+                {"op": "learn", "a": [2, 0], "r": [0, 1], "p": [1, 2]}, {"op": "scores", "actions": A3}, {"op": "predict", "actions": A3},
+                {"op": "learn", "a": "last", "r": [1, 1], "p": [1, 2]}, {"op": "scores", "actions": A2}, {"op": "predict", "actions": A1}]
+        for spec in ({"type": "ucb", "seed": 1}, {"type": "ucb", "seed": 3}, {"type": "eps", "eps": [0, 1], "seed": 1}, {"type": "eps", "eps": q(0.1), "seed": 2},
+                     {"type": "random", "seed": 1}):
+            cs.append({"t": "bandit", "eqm": True, "learner": spec, "pool": pool, "hist": hist})
+        cs.append({"t": "bandit", "eqm": True, "learner": {"type": "ucb", "seed": 2}, "pool": pool, "hist": hist, "safe": True})
+    return cs
+
+
 def snippet_bandit(case):
     spec = case["learner"]
     lines = ["import sys, os, math; sys.path.insert(0, os.environ.get('COBA_REPO', '/repo'))",
@@ -1780,7 +1988,9 @@ def snippet_bandit(case):
             lines += [("A[:] = %s   # same list object, refilled in place" if sh and not op.get("as_tuple") else "del A; A = %s   # a fresh list, the old one dropped first") % acts, "a, p = L.predict(%s, A)[:2]; last = a" % ctx,
                       "print('predict', a, p, 'score of it', L.score(%s, A, a)); assert any(a is x or a == x for x in A) and p > 0" % ctx]
         elif op["op"] == "scores":
-            lines += [("A[:] = %s" if sh else "del A; A = %s") % acts, "v = [L.score(%s, A, x) for x in A]; print('scores', v, sum(v)); assert min(v) >= 0 and abs(sum(v)-1) <= 1e-9" % ctx]
+            lines += [("A[:] = %s" if sh else "del A; A = %s") % acts, "v = [L.score(%s, A, x) for x in A]; print('scores', v, sum(v)); assert min(v) >= 0 and %s" % (
+                ctx, "max(v) <= 1 and sum(v) >= 1 - 1e-9   # equal members offered: a distribution once every offered action has been observed" if case.get("eqm") and spec["type"] == "ucb"
+                else "abs(sum(v)-1) <= 1e-9")]
         elif op["op"] == "score":
             lines += ["print('score', L.score(%s, %s, %s))" % (ctx, acts, py_lit(case["pool"][op["a"][0]][op["a"][1]]))]
         elif op["op"] == "learn":
@@ -1838,7 +2048,13 @@ class C16(Property):
             "whose make_hashable keys hash alike (-1/-2, 0/2**61-1 as scalars, inside dense and sparse actions, as keys), offered together; every bandit and Corral history is "
             "run a second time on a twin taught the same rewards for injectively renamed actions (position-wise probabilities must agree); 6% `dups` cases: offered lists with "
             "EQUAL members (separately built duplicates, 1/1.0/True, row flavours) carrying different weights, on Fixed / Random / PMFPredictor / PMFInfoPredictor (optionally under "
-            "SafeLearner / Misguided), 2-12 predicts; non-trivial = >=2 predicts and a member with an equal twin drawn.")
+            "SafeLearner / Misguided), 2-12 predicts; non-trivial = >=2 predicts and a member with an equal twin drawn. Phase 5: 8% `equal members` cases (bandit histories flagged eqm): "
+            "BanditUCB / BanditEpsilon / Random, optionally Misguided / SafeLearner / one list refilled in place, over lists in which 1-2 actions occur twice (80% in another "
+            "spelling), half of the pools starting with a hash-colliding pair offered together, 3-20 calls, (B) positional: UCB entries in [0,1], total >= 1, = 1 once every "
+            "offered action was observed, equal members equal; every Corral history is additionally led ONCE as a whole (first 30 learns) through the float-faithful "
+            "Corral.learnF (losses, root search, normalisation, p-bar smoothing, eta/rho) and compared bit for bit with _ps/_p_bars/_etas/_rhos; on every nested round the "
+            "decidable predicate acceptsB is compared with the rewards the inner Corrals are handed and, when it rejects, with the real learn raising AssertionError; "
+            "SafeLearner's memoised (_pred_batch,_pred_kwargs,_pred_format) after the first predict is compared with the model's stAfter.")
     trusted_base = [
         "floats are modelled by rationals; the running means of BanditEpsilon/BanditUCB go through a rounding parameter `fl` (theorems: for every fl; driver: "
         "round-to-nearest-even binary64 implemented in Lean and checked against CPython on 3000 values), so ties are the implementation's ties; the final "
@@ -1881,6 +2097,10 @@ class C16(Property):
                                          "validity itself fails while an unobserved action is offered twice (ucb_equal_members_counterexample, corpus witness) - the property speaks of action sets",
         "corral_float_weights_sum_partial": "only the normalisation step of the float Corral weights; missing: an error bound for CPython's compensated sum() under the "
                                             "float law (total within relative tau of the true sum is a hypothesis)",
+        "corral_float_learn_simplex_partial": "the float-faithful CorralLearner.learn keeps all weights / smoothed weights / learning rates > 0 and both sums within explicit "
+                                              "bounds of 1 for every gamma in [0,1] under the float law; hypothesis SumRel tau fl: CPython's compensated sum() is accurate to "
+                                              "relative tau on positive lists (not derivable from the float law independent of the length; observed <= 2^-52)",
+        "corral_float_run_simplex_partial": "the same for whole histories of learn calls (induction); same hypothesis on sum()",
         "corral_nested_valid": "forced hypothesis `accepts`: every Corral at or below a learner must be handed a reward in [0,1]; importance-mode feedback "
                                "reward/probability violates it for a nested Corral (corral_importance_feedback_unbounded, replayed as corpus witness)",
         "omd_float_halts": "termination on the double carrier assumes the rounded midpoint stays inside the bracket and in the carrier (monotone rounding); "
@@ -1933,7 +2153,73 @@ class C16(Property):
             os.makedirs(os.path.dirname(path), exist_ok=True)
             with open(path, "w", encoding="utf-8") as f:
                 f.write(body)
-        return [note, self._pre_build_bandit(ast, lean)]
+        return [note, self._pre_build_bandit(ast, lean), self._pre_build_exprs(ast, lean)]
+
+    # the update expressions translated into `Ex` programs: (name, file, class, function, how to find the expression, variable table)
+    EXPR_FALLBACK = {
+        "pbarExpr": "Ex.add (Ex.mul (Ex.sub (Ex.lit 1) (Ex.var 0)) (Ex.var 1)) (Ex.div (Ex.mul (Ex.var 0) (Ex.lit 1)) (Ex.var 2))",
+        "rhoThrExpr": "Ex.div (Ex.lit 1) (Ex.var 0)",
+        "rhoNewExpr": "Ex.div (Ex.lit 2) (Ex.var 0)",
+        "epsAlphaExpr": "Ex.div (Ex.lit 1) (Ex.addI (Ex.var 0) (Ex.lit 1))",
+        "epsQExpr": "Ex.add (Ex.mul (Ex.sub (Ex.lit 1) (Ex.var 0)) (Ex.var 1)) (Ex.mul (Ex.var 0) (Ex.var 2))",
+        "ucbMeanExpr": "Ex.add (Ex.mul (Ex.sub (Ex.lit 1) (Ex.div (Ex.lit 1) (Ex.var 0))) (Ex.var 1)) (Ex.mul (Ex.div (Ex.lit 1) (Ex.var 0)) (Ex.var 2))",
+    }
+
+    def _pre_build_exprs(self, ast, lean):
+        """coba/learners/corral.py (`_p_bars` smoothing, rho threshold / new rho) and coba/learners/bandit.py (BanditEpsilon's alpha and Q update, BanditUCB's running
+        mean) -> Generated/C16Exprs.lean as `Ex` programs; Props.C16.update_exprs_match proves that their float evaluation is what the model's pbarF / etaRhoF /
+        Eps.learn / Ucb.learn compute (an edit of one of these source expressions breaks that proof)"""
+        path = os.path.join(lean.LEAN_DIR, "CobaVerif", "Generated", "C16Exprs.lean")
+        repo = os.environ.get("COBA_REPO", "/repo")
+        INTS = {"self._N[action]", "self._s[action]", "len(self._base_lrns)"}
+
+        def tr(e, table):
+            if isinstance(e, ast.Constant) and type(e.value) is int and e.value >= 0:
+                return "Ex.lit %d" % e.value, True
+            if isinstance(e, ast.BinOp) and type(e.op) in (ast.Add, ast.Sub, ast.Mult, ast.Div):
+                (l, li), (r, ri) = tr(e.left, table), tr(e.right, table)
+                if isinstance(e.op, ast.Add) and li and ri:
+                    return "Ex.addI (%s) (%s)" % (l, r), True
+                return "Ex.%s (%s) (%s)" % ({ast.Add: "add", ast.Sub: "sub", ast.Mult: "mul", ast.Div: "div"}[type(e.op)], l, r), False
+            nm = ast.unparse(e)
+            if nm in table:
+                return "Ex.var %d" % table[nm], nm in INTS
+            raise KeyError(nm)
+
+        def fn(tree, cls, name):
+            c = next(n for n in ast.walk(tree) if isinstance(n, ast.ClassDef) and n.name == cls)
+            return next(n for n in c.body if isinstance(n, ast.FunctionDef) and n.name == name)
+
+        def assigned(f, target):
+            return next(n.value for n in ast.walk(f) if isinstance(n, ast.Assign) and len(n.targets) == 1 and ast.unparse(n.targets[0]) == target)
+        out, ok_all = {}, True
+        try:
+            ctree = ast.parse(open(os.path.join(repo, "coba", "learners", "corral.py"), encoding="utf-8").read())
+            btree = ast.parse(open(os.path.join(repo, "coba", "learners", "bandit.py"), encoding="utf-8").read())
+            cl, el, ul = fn(ctree, "CorralLearner", "learn"), fn(btree, "BanditEpsilonLearner", "learn"), fn(btree, "BanditUCBLearner", "learn")
+            pb = assigned(cl, "self._p_bars")
+            out["pbarExpr"] = tr(pb.elt, {"self._gamma": 0, pb.generators[0].target.id: 1, "len(self._base_lrns)": 2})[0]
+            thr = next(n for n in ast.walk(cl) if isinstance(n, ast.Compare) and isinstance(n.ops[0], ast.Gt) and "_rhos" in ast.unparse(n.comparators[0]))
+            out["rhoThrExpr"] = tr(thr.left, {"self._p_bars[i]": 0})[0]
+            out["rhoNewExpr"] = tr(assigned(cl, "self._rhos[i]"), {"self._p_bars[i]": 0})[0]
+            out["epsAlphaExpr"] = tr(assigned(el, "alpha"), {"self._N[action]": 0})[0]
+            out["epsQExpr"] = tr(assigned(el, "self._Q[action]"), {"alpha": 0, "old_Q": 1, "reward": 2})[0]
+            uelse = next(n for n in ast.walk(ul) if isinstance(n, ast.If)).orelse
+            um = next(n.value for s_ in uelse for n in ast.walk(s_) if isinstance(n, ast.Assign) and ast.unparse(n.targets[0]) == "self._m[action]")
+            out["ucbMeanExpr"] = tr(um, {"self._s[action]": 0, "self._m[action]": 1, "reward": 2})[0]
+        except Exception:
+            ok_all = False
+        if not ok_all:
+            out = dict(self.EXPR_FALLBACK)
+        body = ("-- GENERATED by harness/props/c16.py from coba/learners/corral.py and coba/learners/bandit.py on every run; do not edit.\n"
+                "import CobaVerif.Model.C16\nnamespace Coba.Generated.C16\nopen Coba.C16\n" +
+                "".join("def %s : Ex := %s\n" % (k, out[k]) for k in sorted(self.EXPR_FALLBACK)) +
+                "def exprsExtracted : Bool := %s\nend Coba.Generated.C16\n" % ("true" if ok_all else "false"))
+        old = open(path, encoding="utf-8").read() if os.path.exists(path) else None
+        if old != body:
+            with open(path, "w", encoding="utf-8") as f:
+                f.write(body)
+        return "update expressions translated from corral.py / bandit.py: %s" % ", ".join(sorted(out)) if ok_all else "update expressions could not be translated (source reshaped)"
 
     def _pre_build_bandit(self, ast, lean):
         """coba/learners/bandit.py (default epsilon, the cap in `min(1/4, V_j)`) and coba/safety.py (`a in [0,1]`, `abs_tol=.001`) -> Generated/C16BanditConsts.lean"""
@@ -1982,6 +2268,8 @@ class C16(Property):
         r = rng.below(100)
         if r < 6:
             return gen_dups(rng, tier)
+        if r < 14:
+            return gen_eqm(rng, tier)
         if r < 70:
             return gen_bandit(rng, tier)
         return gen_corral(rng, tier)
@@ -2075,6 +2363,7 @@ class C16(Property):
                     if lt_ == "fixed" and seed in (1, 2):
                         cs.append({"t": "dups", "learner": sp_, "pool": dpool, "hist": hh, "safe": True})
                         cs.append({"t": "dups", "learner": dict(sp_, mis=[[q(0.5), q(-1)]]), "pool": dpool, "hist": hh})
+        cs.extend(eqm_corpus())
         cs.append({"t": "witness", "name": "importance_feedback_unbounded", "hist": []})
         cs.append({"t": "witness", "name": "keyeq_sweep", "hist": []})
         cs.append({"t": "witness", "name": "ucb_equal_members", "hist": []})
